@@ -389,13 +389,25 @@ def _split_tuple_assign(block: list[ast.stmt]) -> None:
         i += 1
 
 
+def _ctor_call(e: ast.AST) -> bool:
+    if not isinstance(e, ast.Call):
+        return False
+    f = e.func
+    name = f.id if isinstance(f, ast.Name) else f.attr if isinstance(f, ast.Attribute) else ""
+    return name[:1].isupper() and not name.isupper()
+
+
 def _ifelse_temp_to_expr(fn: T.Any) -> None:
     """`if C: t = A else: t = B` for a temporary the inliner generated  ->  `t = <A if C else B>` (boolean constants folded)."""
     for b in list(_blocks(fn)):
         for i, st in enumerate(b):
             if isinstance(st, ast.If) and len(st.body) == 1 and len(st.orelse) == 1 and all(isinstance(x, ast.Assign) and len(x.targets) == 1 and isinstance(x.targets[0], ast.Name) for x in (st.body[0], st.orelse[0])):
                 ta, tb = st.body[0].targets[0].id, st.orelse[0].targets[0].id
-                if ta == tb and "__" in ta:
+                plain_local = ta == tb and ta not in {a_.arg for a_ in fn.args.args + fn.args.kwonlyargs} and \
+                    sum(1 for x in _own_nodes(fn) if isinstance(x, ast.Name) and x.id == ta and isinstance(x.ctx, (ast.Store, ast.Del))) == 2 and \
+                    sum(1 for x in _own_nodes(fn) if isinstance(x, ast.Name) and x.id == ta and isinstance(x.ctx, ast.Load)) == 1 and _query(st.test) and \
+                    i + 1 < len(b) and any(isinstance(x, ast.Name) and x.id == ta for x in ast.walk(b[i + 1])) and not _ctor_call(st.body[0].value) and not _ctor_call(st.orelse[0].value)
+                if ta == tb and ("__" in ta or plain_local):
                     A, B = st.body[0].value, st.orelse[0].value
                     ca = A.value if isinstance(A, ast.Constant) and isinstance(A.value, bool) else None
                     cb = B.value if isinstance(B, ast.Constant) and isinstance(B.value, bool) else None
@@ -574,6 +586,70 @@ def _flag_loops(block: list[ast.stmt]) -> None:
         i += 1
 
 
+def _break_then_exit(block: list[ast.stmt]) -> None:
+    """for x in L:                         for x in L:
+           if P: S; break         ==>          if P: S; REST
+       else:                               E
+           E
+       REST (always raises / returns)
+    The single break only served to reach REST; with REST in its place the else clause is what follows a loop that ran out."""
+    i = 0
+    while i < len(block):
+        lp = block[i]
+        rest = block[i + 1:]
+        if isinstance(lp, (ast.For, ast.AsyncFor)) and lp.orelse and rest and isinstance(rest[-1], (ast.Raise, ast.Return)) \
+                and not any(isinstance(x, (ast.Break, ast.Continue)) for st in rest for x in ast.walk(st)) and sum(1 for st in rest for _ in ast.walk(st)) <= 80:
+            holders = []
+            def find(stmts: list[ast.stmt]) -> None:
+                for j, st in enumerate(stmts):
+                    if isinstance(st, ast.Break):
+                        holders.append((stmts, j))
+                    elif isinstance(st, (ast.For, ast.AsyncFor, ast.While)):
+                        continue
+                    else:
+                        for fld in ("body", "orelse", "finalbody"):
+                            find(getattr(st, fld, []) or [])
+                        for h in getattr(st, "handlers", []) or []:
+                            find(h.body)
+            find(lp.body)
+            if len(holders) == 1 and holders[0][1] == len(holders[0][0]) - 1:
+                stmts, j = holders[0]
+                stmts[j:j + 1] = rest
+                tail = lp.orelse
+                lp.orelse = []
+                block[i + 1:] = tail
+        i += 1
+
+
+def _flag_loops_fn(fn: T.Any) -> None:
+    """The same rewrite when the initialisation `flag = False` and the `while not flag:` loop are not adjacent (the loop sits in a
+    `try`, other set-up lies in between): the flag must have no other reader than the loop test and no other writer than its
+    initialisation and the loop body."""
+    own = list(_own_nodes(fn))
+    for lp in [n for n in own if isinstance(n, ast.While)]:
+        if lp.orelse or not (isinstance(lp.test, ast.UnaryOp) and isinstance(lp.test.op, ast.Not) and isinstance(lp.test.operand, ast.Name)):
+            continue
+        flag = lp.test.operand.id
+        inside = {id(x) for st in lp.body for x in ast.walk(st)}
+        occ = [n for n in own if isinstance(n, ast.Name) and n.id == flag]
+        outside = [n for n in occ if id(n) not in inside and n is not lp.test.operand]
+        if len(outside) != 1 or not isinstance(outside[0].ctx, ast.Store):
+            continue
+        init = next((st for st in own if isinstance(st, ast.Assign) and len(st.targets) == 1 and st.targets[0] is outside[0]), None)
+        if init is None or not (isinstance(init.value, ast.Constant) and init.value.value is False) or init.lineno > lp.lineno:
+            continue
+        if any(isinstance(x, (ast.For, ast.AsyncFor, ast.While)) and any(y is init for y in ast.walk(x)) for x in own):
+            continue
+        # place the initialisation next to the loop in a scratch block and reuse the adjacent-form rewrite
+        scratch: list[ast.stmt] = [init, lp]
+        _flag_loops(scratch)
+        if len(scratch) == 1:
+            for b in _blocks(fn):
+                if any(x is init for x in b):
+                    b[:] = [x for x in b if x is not init] or [ast.copy_location(ast.Pass(), init)]
+                    break
+
+
 def _stmt_key(st: ast.stmt) -> str:
     """Text of a statement for comparison; an annotated assignment compares equal to the plain one."""
     if isinstance(st, ast.AnnAssign) and st.value is not None:
@@ -595,7 +671,7 @@ def _inline_named_tests(fn: T.Any) -> None:
         i = 0
         while i + 1 < len(b):
             a, nx = b[i], b[i + 1]
-            host_field = "test" if isinstance(nx, ast.If) else "value" if isinstance(nx, (ast.Assign, ast.AnnAssign)) and getattr(nx, "value", None) is not None else None
+            host_field = "test" if isinstance(nx, ast.If) else "value" if isinstance(nx, (ast.Assign, ast.AnnAssign, ast.Return)) and getattr(nx, "value", None) is not None else None
             if isinstance(a, ast.Assign) and len(a.targets) == 1 and isinstance(a.targets[0], ast.Name) and host_field is not None:
                 t = a.targets[0].id
                 boolish = isinstance(a.value, (ast.Compare, ast.BoolOp)) or (isinstance(a.value, ast.UnaryOp) and isinstance(a.value.op, ast.Not))
@@ -632,12 +708,30 @@ def _snapshot_aliases(fn: T.Any) -> None:
                     and isinstance(a.value.value, ast.Name) and a.value.value.id == "self"):
                 continue
             v, fld = a.targets[0].id, a.value.attr
-            if v in params or stores.get(v) != 1 or a not in b:
+            if v in params or a not in b:
                 continue
             k = b.index(a)
             rest = b[k + 1:]
             uses = [x for st in rest for x in ast.walk(st) if isinstance(x, ast.Name) and x.id == v]
             all_uses = [x for x in own if isinstance(x, ast.Name) and x.id == v and isinstance(x.ctx, ast.Load)]
+            if stores.get(v) != 1:
+                # several bindings of v (one per branch): this one owns the reads that follow it in ITS block, provided v is not
+                # re-bound there and every other read of v follows another binding in another block in the same way
+                if any(isinstance(x.ctx, (ast.Store, ast.Del)) for x in uses):
+                    continue
+                others = [d for d in own if isinstance(d, ast.Assign) and d is not a and len(d.targets) == 1 and isinstance(d.targets[0], ast.Name) and d.targets[0].id == v]
+                claimed = set(id(x) for x in uses)
+                fine = len(others) + 1 == stores.get(v)
+                for d in others:
+                    blk = next((bb for bb in _blocks(fn) if any(x is d for x in bb)), None)
+                    if blk is None or any(x is d for st in rest for x in ast.walk(st)):
+                        fine = False
+                        break
+                    after = blk[next(j for j, x in enumerate(blk) if x is d) + 1:]
+                    claimed |= {id(x) for st in after for x in ast.walk(st) if isinstance(x, ast.Name) and x.id == v and isinstance(x.ctx, ast.Load)}
+                if not fine or claimed != {id(x) for x in all_uses}:
+                    continue
+                all_uses = uses
             if not uses or len(uses) != len(all_uses) or any(isinstance(x, (ast.For, ast.AsyncFor, ast.While)) for st in rest for x in ast.walk(st) if any(u in list(ast.walk(x)) for u in uses)):
                 continue
             # scan simple statements in order; a statement may use v and then disturb the field (evaluation before the store)
@@ -673,6 +767,13 @@ def _snapshot_aliases(fn: T.Any) -> None:
                         return
                     writes_field = any(isinstance(x, ast.Attribute) and x.attr == fld and isinstance(x.ctx, (ast.Store, ast.Del)) for x in ast.walk(st))
                     calls = any(isinstance(x, (ast.Await, ast.Yield, ast.YieldFrom)) for x in ast.walk(st)) or not _query(st.value if isinstance(st, (ast.Assign, ast.AugAssign, ast.AnnAssign, ast.Expr, ast.Return)) and getattr(st, "value", None) is not None else ast.Pass())
+                    top = getattr(st, "value", None)
+                    top = top.value if isinstance(top, ast.Await) else top
+                    recv_only = isinstance(top, ast.Call) and isinstance(top.func, ast.Attribute) and any(top.func.value is u for u in uses) \
+                        and sum(1 for x in ast.walk(st) if any(x is u for u in uses)) == 1 and all(_query(a_) for a_ in list(top.args) + [k_.value for k_ in top.keywords])
+                    if has_use and calls and recv_only:
+                        disturbed = True        # the receiver is read before the call runs
+                        continue
                     if has_use and calls and not isinstance(st, ast.Return):
                         # the use and a call in one statement: order inside the statement is not analysed
                         ok = False
@@ -694,6 +795,10 @@ def _snapshot_aliases(fn: T.Any) -> None:
                                 val[j] = new
             b.remove(a)
             own = list(_own_nodes(fn))
+            stores = {}
+            for n in own:
+                if isinstance(n, ast.Name) and isinstance(n.ctx, (ast.Store, ast.Del)):
+                    stores[n.id] = stores.get(n.id, 0) + 1
 
 
 def _conditional_wrap(fn: T.Any) -> None:
@@ -736,6 +841,54 @@ def _conditional_wrap(fn: T.Any) -> None:
             i += 1
 
 
+def _dead_constant_stores(fn: T.Any) -> None:
+    """`v = None` (any constant) for a local that is never read - what is left of an abbreviation whose uses were substituted."""
+    own = list(_own_nodes(fn))
+    loaded = {n.id for n in own if isinstance(n, ast.Name) and isinstance(n.ctx, (ast.Load, ast.Del))}
+    params = {a.arg for a in fn.args.args + fn.args.kwonlyargs}
+    for b in list(_blocks(fn)):
+        for st in list(b):
+            if isinstance(st, ast.Assign) and len(st.targets) == 1 and isinstance(st.targets[0], ast.Name) and isinstance(st.value, ast.Constant) \
+                    and st.targets[0].id not in loaded and st.targets[0].id not in params:
+                b.remove(st)
+                if not b:
+                    b.append(ast.copy_location(ast.Pass(), st))
+
+
+def _distribute_selected_callee(fn: T.Any) -> None:
+    """`if C: K = A else: K = B` followed by one statement that calls `K(...)` (K used nowhere else)
+         ->  the statement moves into the branches with the chosen callee written out: `if C: v = A(...) else: v = B(...)`."""
+    own = list(_own_nodes(fn))
+    for b in list(_blocks(fn)):
+        # a bare annotation `K: T` declares nothing at run time
+        b[:] = [st for st in b if not (isinstance(st, ast.AnnAssign) and st.value is None and isinstance(st.target, ast.Name))] or [ast.Pass()]
+        i = 0
+        while i + 1 < len(b):
+            tree, nx = b[i], b[i + 1]
+            if isinstance(tree, ast.If) and isinstance(nx, (ast.Assign, ast.Expr, ast.Return)):
+                leaves = _leaves(tree)
+                ks = {lf[-1].targets[0].id for lf in (leaves or []) if lf and isinstance(lf[-1], ast.Assign) and len(lf[-1].targets) == 1 and isinstance(lf[-1].targets[0], ast.Name)
+                      and (isinstance(lf[-1].value, ast.Name) or _attr_chain(lf[-1].value))}
+                if leaves and len(ks) == 1 and all(lf and isinstance(lf[-1], ast.Assign) and isinstance(lf[-1].targets[0], ast.Name) and lf[-1].targets[0].id in ks
+                                                   and (isinstance(lf[-1].value, ast.Name) or _attr_chain(lf[-1].value)) for lf in leaves):
+                    K = next(iter(ks))
+                    loads = [n for n in own if isinstance(n, ast.Name) and n.id == K and isinstance(n.ctx, ast.Load)]
+                    calls = [c for c in ast.walk(nx) if isinstance(c, ast.Call) and isinstance(c.func, ast.Name) and c.func.id == K]
+                    if len(loads) == 1 and len(calls) == 1 and calls[0].func is loads[0]:
+                        for lf in leaves:
+                            chosen = lf[-1].value
+                            cp = _clone(nx)
+                            for c in ast.walk(cp):
+                                if isinstance(c, ast.Call) and isinstance(c.func, ast.Name) and c.func.id == K:
+                                    c.func = ast.copy_location(_clone(chosen), c.func)
+                            ast.fix_missing_locations(cp)
+                            lf[-1] = cp
+                        del b[i + 1]
+                        own = list(_own_nodes(fn))
+                        continue
+            i += 1
+
+
 def _distribute_tuple_local(fn: T.Any) -> None:
     """`if C: t = (a1, a2) else: t = (b1, b2)` followed by `x, y = t` (t used nowhere else)
          ->  `if C: x = a1; y = a2 else: x = b1; y = b2`   (no value reads one of the targets)."""
@@ -760,6 +913,34 @@ def _distribute_tuple_local(fn: T.Any) -> None:
                         own = list(_own_nodes(fn))
                         continue
             i += 1
+
+
+def _tail_bool_returns(fn: T.Any) -> None:
+    """A predicate that ends `if C: return False else: return E` (any of the four constant placements)  ->  `return not C and E`."""
+    for _ in range(4):
+        if not fn.body or not isinstance(fn.body[-1], ast.If):
+            return
+        st = fn.body[-1]
+        if not (len(st.body) == 1 and len(st.orelse) == 1 and isinstance(st.body[0], ast.Return) and isinstance(st.orelse[0], ast.Return)
+                and st.body[0].value is not None and st.orelse[0].value is not None and _query(st.test) and _query(st.body[0].value) and _query(st.orelse[0].value)):
+            return
+        A, B = st.body[0].value, st.orelse[0].value
+        ca = A.value if isinstance(A, ast.Constant) and isinstance(A.value, bool) else None
+        cb = B.value if isinstance(B, ast.Constant) and isinstance(B.value, bool) else None
+        neg = ast.UnaryOp(op=ast.Not(), operand=st.test)
+        if ca is True:
+            e: ast.expr = ast.BoolOp(op=ast.Or(), values=[st.test, B])
+        elif cb is False:
+            e = ast.BoolOp(op=ast.And(), values=[st.test, A])
+        elif ca is False:
+            e = ast.BoolOp(op=ast.And(), values=[neg, B])
+        elif cb is True:
+            e = ast.BoolOp(op=ast.Or(), values=[neg, A])
+        else:
+            return
+        new = ast.copy_location(ast.Return(value=e), st)
+        ast.fix_missing_locations(new)
+        fn.body[-1] = new
 
 
 def _hoist_common_tail_return(fn: T.Any) -> None:
@@ -1232,12 +1413,17 @@ def canonicalise(tree: ast.Module, known_globals: set[str] | None = None, known_
             _split_tuple_assign(b)
             _flag_loops(b)
             _rotate_priming(b)
+            _break_then_exit(b)
         _merge_identical_branches(fn)
         _inline_named_tests(fn)
+        _tail_bool_returns(fn)
         _snapshot_aliases(fn)
+        _dead_constant_stores(fn)
         _conditional_wrap(fn)
         _distribute_tuple_local(fn)
+        _distribute_selected_callee(fn)
         _hoist_common_tail_return(fn)
+        _flag_loops_fn(fn)
         _return_in_loop_to_break(fn)
         _search_loops(fn)
         _fuse_comprehensions(fn)
@@ -1249,6 +1435,8 @@ def canonicalise(tree: ast.Module, known_globals: set[str] | None = None, known_
             _fold_none_tests(fn, nonnull_methods)
             fn.body = _guard_clauses(fn.body, True, False) or [ast.Pass()]
             _aliases(fn, mutable.get(id(fn)))
+        _snapshot_aliases(fn)
+        _dead_constant_stores(fn)
         _ifelse_temp_to_expr(fn)
         _collapse_generated_temps(fn)
     ast.fix_missing_locations(tree)
